@@ -34,6 +34,8 @@ type dKV struct {
 type dAttrs struct {
 	Tags []string `json:"tags"`
 	KV   []dKV    `json:"kv"`
+	// ForceAnno: the named values are written as annotation lines (`@k = v`) whatever the layout would choose
+	ForceAnno bool `json:"-"`
 }
 type dType struct {
 	Wrap    string   `json:"wrap"` // "", "set", "seq"
@@ -901,6 +903,9 @@ func (l *c02Layout) typeDeclAt(bp *strings.Builder, ind string, t dTypeDecl, ful
 	b := bp
 	r := l.r
 	tkv := !l.annoBody || r.Bool() || t.Kind == "union"
+	if t.Attrs.ForceAnno && t.Kind != "union" {
+		tkv = false
+	}
 	l.push(fmt.Sprintf(".types[%q]", full))
 	defer l.pop()
 	l.mark(b, u, "!")
